@@ -17,9 +17,9 @@ func init() {
 	register(&Property{
 		ID:    "C15",
 		Title: "Built-in operators decide exactly their documented predicates",
-		Explanation: "Decides structural agreement between operators, not the predicates themselves: R1 capture bound agreement: every loop that stores captures stores a value for every index it visits (a group that did not participate is stored as empty, never skipped) and stops after index 9 (the bound constant extracted from each loop's exit test is 10 everywhere), so TX.0-9 are filled alike by @rx, binary @rx, @pm and @validateNid; " +
+		Explanation: "Decides structural agreement between operators, not the predicates themselves: R1 capture bound agreement: every loop that stores captures stores a value for every index it visits (a group that did not participate is stored as empty, never skipped) stops after index 9, and is left only when the matches are exhausted or ten captures are stored (the bound constant extracted from each loop's exit test is 10 everywhere), so TX.0-9 are filled alike by @rx, binary @rx, @pm and @validateNid; " +
 			"R2 macro re-expansion: every operator holding a macro argument expands it with the transaction inside Evaluate and never at construction, and keeps no expanded copy; R3 single negation point (C01.R3 re-applied); R4 look-ahead and fixed-position reads in the operators are length-guarded (A9 shapes); " +
-			"R5 the @pm family builds its matcher and its minimum-length shortcut from the same phrase list, the matcher is ASCII-case-insensitive, and the minimum-length test can only reject; R6 @ipMatch gives a bare address the host mask of its family: /32 only when the entry contains no ':' (path query with infeasible-branch pruning), /128 only when it does; R7 the numeric comparisons (@eq @ge @gt @le @lt) are siblings: each returns one comparison of the same two parsed numbers (input and expanded argument, parsed by the same function with the same error handling), so they differ only in the comparison operator; R2 also: every return of a macro-argument operator's Evaluate follows the expansion (nothing is decided from the argument text as written).",
+			"R5 the @pm family builds its matcher and its minimum-length shortcut from the same phrase list, the matcher is ASCII-case-insensitive, and the minimum-length test can only reject; R6 @ipMatch gives a bare address the host mask of its family: /32 only when the entry contains no ':' (path query with infeasible-branch pruning), /128 only when it does; R7 the numeric comparisons (@eq @ge @gt @le @lt) are siblings: each returns one comparison of the same two parsed numbers (input and expanded argument, parsed by the same function with the same error handling), so they differ only in the comparison operator; R8 a rune obtained by ranging over the input is never narrowed to a byte without a bound (bytes are examined as bytes); R2 also: every return of a macro-argument operator's Evaluate follows the expansion (nothing is decided from the argument text as written).",
 		NotDecided: []string{
 			"every predicate itself (substring search, CIDR membership, byte ranges, UTF-8 validation, RE2 semantics)",
 			"numeric parsing leniency of the comparison operators (non-numeric text counts as 0)",
